@@ -429,6 +429,19 @@ class HistoryModel:
             ex = Expect("value")
             ex.value = F(f["c"], f["ret"], tuple(lit(a) for a in op["args"]), {})
             self.expect[key] = ex
+        elif k == "cprio":
+            ex = Expect("cprio")
+            if "ex" in op:
+                info = self.execs.get(op["ex"])
+                if info is None or info.get("invalid"):
+                    self.expect[key] = Expect("any")
+                    return
+                ex.inst = info["inst"]
+                ex.selected = {n[1] for n in info["S"] if n[0] == "s"}
+            else:
+                ex.inst = op["inst"]
+            ex.overrides = copy.deepcopy(self.inst[ex.inst].overrides)
+            self.expect[key] = ex
         elif k == "set_debug":
             self.debug_on = bool(op["value"])
             self.expect[key] = Expect("none")
